@@ -133,7 +133,7 @@ pub trait Cat: Region + 'static {
     fn from_all_form<K: Sink<Self>>(form: &str, ws: &[Self::Owned]) -> Option<K>;
     fn push_all_loose_form<K: Sink<Self>>(sink: &mut K, form: &str, ws: &[Self::Owned]) -> Option<()>;
     fn from_all_loose_form<K: Sink<Self>>(form: &str, ws: &[Self::Owned]) -> Option<K>;
-    fn reserve_form(&mut self, form: &str, ws: &[Self::Owned]) -> Option<()>;
+    fn reserve_form(&mut self, form: &str, ws: &[Self::Owned], loose: bool) -> Option<()>;
     fn push_item(&mut self, src: &Self, index: Self::Index, borrowed: bool) -> Option<Self::Index>;
     fn ser(&self) -> Option<String>;
     fn de(text: &str) -> Option<Self>;
@@ -269,7 +269,12 @@ where
     fn reserve_items(&mut self, form: &str, vs: &Val) -> String {
         let Val::List(xs) = vs else { return "bad-value".into() };
         let Some(ws) = xs.iter().map(R::Owned::from_val).collect::<Option<Vec<_>>>() else { return "bad-value".into() };
-        match guard(|| self.r.reserve_form(form, &ws)) {
+        // a trailing `~` asks for the announcement through an iterator without a useful size hint
+        let (form, loose) = match form.strip_suffix('~') {
+            Some(f) => (f, true),
+            None => (form, false),
+        };
+        match guard(|| self.r.reserve_form(form, &ws, loose)) {
             Some(Some(())) => "ok".into(),
             Some(None) => "bad-form".into(),
             None => "panic".into(),
